@@ -416,6 +416,7 @@ private:
     void doFillGaps(const Step &st, StepRecord &rec);
     void doBulk(const Step &st, StepRecord &rec);
     void doParamEdit(const Step &st, StepRecord &rec);
+    void doFrameDup(const Step &st, StepRecord &rec);
     void doFrameSubmit(const Step &st, StepRecord &rec);
     void doFrameMutate(const Step &st, StepRecord &rec);
     void doCol(const Step &st, StepRecord &rec, bool analog);
@@ -781,6 +782,50 @@ void World::doParam(const Step &st, StepRecord &rec) {
         std::vector<uint8_t> post = preImage();
         if (preImg != post) violate("C10", std::string("save-differs-after-throw/") + op_name(st.op), "a save after the refused call differs from a save before it");
     }
+}
+
+// the caller duplicates a stored frame by handing the object's own frame (a reference into its data) back to frame()
+void World::doFrameDup(const Step &st, StepRecord &rec) {
+    if (!obj || st.i.size() < 3 || cur.frames.empty()) { rec.skipped = true; return; }
+    size_t n = cur.frames.size();
+    size_t src = static_cast<size_t>(st.i[0]) % n;
+    int mode = static_cast<int>(st.i[1]) % 4;
+    size_t idx = SIZE_MAX;
+    if (mode == 1) idx = static_cast<size_t>(st.i[2]) % n;
+    else if (mode == 2) idx = n;
+    else if (mode == 3) idx = n + 1 + static_cast<size_t>(st.i[2]) % 5;
+    SnapFrame handed = cur.frames[src];
+    Snapshot before = cur;
+    Expectation ex = expect_frame(before, handed);
+    try {
+        const EFrame &own = obj->data().frame(src); // a reference into the object's own storage
+        if (idx == SIZE_MAX) obj->frame(own); else obj->frame(own, idx);
+    } catch (...) { rec.threw = true; rec.exc = classify_current_exception(&lastWhat); }
+    cur = take_snapshot(*obj);
+    rec.aux = 700 + static_cast<uint64_t>(mode);
+    if (!rec.threw && ex.kind != EX_MUST_ACCEPT) { premise_broken = true; res.st.premise_broken++; }
+    if (!rec.threw && (on(ORC_C06) || on(ORC_C08))) {
+        const char *prop = on(ORC_C06) ? "C06" : "C08";
+        size_t expectN = idx == SIZE_MAX ? n + 1 : (idx < n ? n : idx + 1);
+        size_t target = idx == SIZE_MAX ? n : idx;
+        if (cur.frames.size() != expectN) violate(prop, "frame-count/duplicate", "frame count " + tos(cur.frames.size()) + ", documented " + tos(expectN));
+        else {
+            std::string fc, d = diff_frame(handed, cur.frames[target], &fc);
+            if (!d.empty()) violate(prop, "duplicate-frame/target/" + fc, "the duplicate of stored frame " + tos(src) + " differs from it: " + d);
+            for (size_t f = 0; !stop && f < n; ++f) {
+                if (f == target) continue;
+                d = diff_frame(before.frames[f], cur.frames[f], &fc);
+                if (!d.empty()) violate(prop, "duplicate-frame/other-frame-changed/" + fc, "frame " + tos(f) + " changed while frame " + tos(src) + " was duplicated: " + d);
+            }
+        }
+    }
+    ctxTag = "duplicate";
+    if (!rec.threw) {
+        if (idx == SIZE_MAX) model.push_back(handed);
+        else { if (idx >= model.size()) model.resize(idx + 1); model[idx] = handed; }
+    }
+    probe("frame.duplicate-own");
+    afterCall(st, rec.threw, rec.exc, before, true);
 }
 
 // the caller copies a parameter out of the object, edits the copy through its setters and hands it back
@@ -1354,6 +1399,7 @@ void World::run() {
         case OP_FILL_GAPS: doFillGaps(st, rec); break;
         case OP_BULK_FRAMES: doBulk(st, rec); break;
         case OP_PARAM_EDIT: doParamEdit(st, rec); break;
+        case OP_FRAME_DUP: doFrameDup(st, rec); break;
         default: rec.skipped = true; break;
         }
         rec.snap_hash = obj ? hash_snapshot(cur) : 0;
